@@ -1709,11 +1709,20 @@ iwrc _jbl_increment_node_data(struct jbl_node *target, struct jbl_node *value) {
     return JBL_ERROR_PATCH_INVALID_VALUE;
   }
   if (target->type == JBV_I64) {
+    int64_t add;
     if (value->type == JBV_I64) {
-      target->vi64 += value->vi64;
-    } else {
-      target->vi64 += (int64_t) value->vf64;
+      add = value->vi64;
+    } else { // a double outside of the int64 range (or NaN) cannot be converted
+      if (!(value->vf64 >= -9223372036854775808.0 && value->vf64 < 9223372036854775808.0)) {
+        return JBL_ERROR_PATCH_INVALID_VALUE;
+      }
+      add = (int64_t) value->vf64;
     }
+    if (  ((add > 0) && (target->vi64 > INT64_MAX - add))
+       || ((add < 0) && (target->vi64 < INT64_MIN - add))) { // the sum is not an int64: target unchanged
+      return JBL_ERROR_PATCH_INVALID_VALUE;
+    }
+    target->vi64 += add;
     return 0;
   } else if (target->type == JBV_F64) {
     if (value->type == JBV_F64) {
